@@ -17,152 +17,102 @@ TRUSTED = ["rustc MIR / drop elaboration", "std effect table", "SequentialReader
 FORBIDDEN = {"WAIT-TURN-W", "CV-WAIT", "CV-WAIT-T", "SLEEP", "JOIN"}
 
 
+def callee_instances(facts, f, bb):
+    b = f.blocks[bb]
+    iid = b.get("inst")
+    inst = facts.instances[iid] if iid is not None else getattr(f, "root_inst", None)
+    if inst is None:
+        return []
+    return [to for _, kind, to, e in facts.inst_callees(inst, b.get("obb", bb)) if to is not None]
+
+
 def run(ctx):
     facts = ctx.facts
     roles.bind(facts)
-    cc_next = method(facts, T_ITER, CC, "next")
-    cc_read = roles.inherent(facts, CC, "read")
-    nr = facts.fn("request::new_request")
+    import parser_rules as PRS, framing_rules as FRM, absint
+    PM = PRS.pmodel(facts)
+    FM = FRM.fmodel(facts)
+    nr = FM.nr0
 
     # ---- C11.1 nothing on the success path waits for an answer
     n = 0
     memo = {}
-    for f in (cc_next, cc_read):
-        inst = facts.mono_instance(f.id)
-        ctx.touch(f)
-        if f.id == cc_next.id:
-            some_bbs = {bb for bb, i, s in f.assigns() if s["lhs"] == {"l": 0, "p": []} and s["rhs"]["rv"] == "agg" and s["rhs"].get("variant") == "Some"}
-        else:
-            some_bbs = {bb for bb, i, s in f.assigns() if s["lhs"] == {"l": 0, "p": []} and s["rhs"]["rv"] == "agg" and s["rhs"].get("variant") == "Ok"}
-        ctx.require(some_bbs, "C11.1: success return of %s" % f.id)
-        # rejecting arms: branches whose exclusive region builds a synthetic error response
-        rejecting = set()
-        stat_blocks = {b for b, c in shared.status_consts_in(f)}
-        for b0 in sorted(f.live_blocks()):
-            if f.term(b0)["t"] != "switch" or f.blocks[b0]["cleanup"]:
-                continue
-            for s0 in f.succs(b0, False):
-                reg = shared.arm_region(f, s0)
-                if reg & stat_blocks and not (reg & some_bbs):
-                    rejecting |= reg
-        for bb, t in f.calls():
-            if f.blocks[bb]["cleanup"]:
-                continue
-            if not (f.reach([bb], unwind=False) & some_bbs):
-                continue
-            if bb in rejecting:
-                continue
-            n += 1
-            ctx.call_sites += 1
-            # effects of the callee on *its* successful paths (a callee that fails ends the success path of the caller)
-            eff = set()
-            for _, kind, to, e in facts.inst_callees(inst, bb):
-                if to is not None:
-                    eff |= shared.success_effects(facts, to, memo)
-            eff &= FORBIDDEN
-            ctx.ob("C11.1", "%s|success-path|%s" % (f.id, short(call_name(t))), "parsing and delivering a request never waits for an earlier request to be answered", not eff, f.loc(bb),
-                   None if not eff else "%s" % sorted(eff))
-    ctx.floor("C11.1 calls on the parser's success path", n, 40)
+    def judge(f, key, bb):
+        t = f.blocks[bb].get("inl_call") or f.term(bb)
+        eff = set()
+        for to in callee_instances(facts, f, bb):
+            eff |= shared.success_effects(facts, to, memo)
+        eff &= FORBIDDEN
+        ctx.ob("C11.1", "%s|success-path|%s" % (key, short(call_name(t))), "parsing and delivering a request never waits for an earlier request to be answered", not eff, f.loc(bb),
+               None if not eff else "%s" % sorted(eff))
+    # next(): the calls on the abstract paths from `a request was read` to `return Some(request)`
+    f = PM.nxt
+    ctx.touch(f)
+    seen = set()
+    delivered = [p for p in PM.after_read(PRS.Ok_(PRS.RQ)) if p.end[0] == "return" and p.ret() == ("some", PRS.RQ)]
+    ctx.ob("C11.1", "%s|delivers" % PM.cc_next.id, "a request that was read is returned to the caller", bool(delivered), "%s:%d" % (f.file, f.line))
+    for p in delivered:
+        for e in p.events:
+            if e[1] in ("call", "drop") and e[0] not in seen and not f.blocks[e[0]]["cleanup"]:
+                seen.add(e[0])
+                if e[1] == "call":
+                    n += 1
+                    ctx.call_sites += 1
+                    judge(f, PM.cc_next.id, e[0])
+    # ... and from the entry of next() to the call that reads the request
+    pre = absint.explore(f, 0, None, stop=lambda bb, t, st: "read" if t["t"] == "call" and call_name(t) == PM.read_def else None)
+    for p in pre:
+        if p.end[0] == "stop":
+            for e in p.events:
+                if e[1] == "call" and e[0] not in seen:
+                    seen.add(e[0]); n += 1
+                    judge(f, PM.cc_next.id, e[0])
+    # the head reader: every call from which its successful return is still reachable
+    g = PM.rd
+    ctx.touch(g)
+    ok_bbs = {bb for bb, i, s in g.assigns() if s["lhs"] == {"l": 0, "p": []} and s["rhs"]["rv"] == "agg" and s["rhs"].get("variant") == "Ok" and g.blocks[bb].get("depth", 0) == 0}
+    if not ok_bbs:
+        # `request.map_err(..)?; Ok(request)` vs. returning the mapped result directly: the success value is whatever new_request produced
+        ok_bbs = {bb for bb in g.returns()}
+    ctx.ob("C11.1", "%s|has-success-return" % PM.read_def, "the head reader can return a request", bool(ok_bbs), "%s:%d" % (g.file, g.line))
+    for bb, t in g.calls():
+        if g.blocks[bb]["cleanup"] or g.blocks[bb].get("synthetic"):
+            continue
+        if not (g.reach([bb], unwind=False) & ok_bbs):
+            continue
+        n += 1
+        ctx.call_sites += 1
+        judge(g, PM.read_def, bb)
+    ctx.floor("C11.1 calls on the parser's success path", n, 25)
     # new_request (connection instance) as a whole
     insts = [i for i in facts.instances_of(nr.id) if not i["generic"] and "SequentialReader<" in i["name"]]
     ctx.require(len(insts) == 1, "C11.1: connection instance of new_request")
     eff = shared.success_effects(facts, insts[0]["id"], memo) & FORBIDDEN
     ctx.ob("C11.1", "%s|no-writer-wait" % nr.id, "successfully building a Request never touches the response writer it is given", not eff, "%s:%d" % (nr.file, nr.line), None if not eff else str(sorted(eff)))
 
-    # ---- C11.2 the socket reader is released at parse time for absent / empty / pre-read bodies
-    import rules_C03
-    f = nr
-    rparam = [i for i in range(1, f.argc + 1) if f.local_ty(i) == "R"]
-    ctx.require(len(rparam) == 1, "C11.2: the reader parameter of new_request")
-    RP = rparam[0]
-    req_cons = sorted({bb for g, bb, s in facts.constructions(REQ) if g.id == f.id})
-    rc = req_cons[0]
-    cons_stmt = [s for s in f.stmts(rc) if s["s"] == "assign" and s["rhs"]["rv"] == "agg" and s["rhs"].get("adt") == REQ][0]
-    r = cons_stmt["rhs"]
-    o_len = f.origin(r["ops"][r["fields"].index("body_length")])
-    CL = [x[1] for x in origin_walk(o_len) if x[0] == "local"][0]
-    # reuse C03's identification of the decisive locals by running its helper through a tiny shim
-    try:
-        locs = find_flags(f)
-    except CheckerError as e:
-        ctx.ob("C11.2", "%s|reader-released-at-parse-time" % f.id, "the body-kind decision of new_request is made on the recognised predicates", False, "%s:%d" % (f.file, f.line), str(e))
-        return c11_rest(ctx, facts, nr, memo)
-    UP, EX = locs
-    dom = f.dominators(False)
-    starts = [b for b in dom[rc] if bool_switch(f, b) and any(x == ("local", UP) for x in origin_walk(f.origin(bool_switch(f, b)[0])))]
-    start = min(starts, key=lambda b: len(dom[b]))
+    # ---- C11.2 the socket reader is released at parse time for absent / empty / small bodies
     bad = []
     rows = 0
-    for up, te, cl, ex in itertools.product([False, True], [False, True], [None, 0, 1, 1024, 1025], [False, True]):
-        if te and cl is not None:
+    for A in FRM.assignments():
+        W = FRM.want(A)
+        if W["kind"] != "ok" or not W["released"]:
+            continue        # other body kinds keep the reader until the body has been read: not this clause
+        needed = [h for h, on in (("Transfer-Encoding", A["te"]), ("Content-Length", A["cl"] is not None), ("Expect", A["expect"] != "absent"), ("Connection", A["upgrade"])) if on and h in FM.scan_headers]
+        if len(needed) > FM.max_visits - 1:
             continue
-        env = {("local", UP): up, ("local", EX): ex, ("local", CL): None if cl is None else ("some", cl)}
-        asg = {}
-        def atom_of(bb):
-            t = f.term(bb)
-            if t["t"] != "switch" or op_local(t["discr"]) in f.flag_locals():
-                return None
-            sw = switch_on_discr(f, bb)
-            if sw:
-                rv, m, otherwise, rest = sw
-                if not rv["pl"]["p"] and rv["pl"]["l"] == CL:
-                    mm = dict(m)
-                    for r_ in rest:
-                        mm[r_] = otherwise
-                    asg["cl"] = True
-                    return ("cl", {True: mm["None" if cl is None else "Some"]})
-                if rv.get("adt") == "std::ops::ControlFlow":
-                    asg["cf"] = True
-                    return ("cf", {True: m.get("Continue", otherwise)})
-                if rv.get("adt") == "std::option::Option":
-                    # drop-elaboration re-tests of Options: follow by known value when it is CL
-                    return None
-                return None
-            bs = bool_switch(f, bb)
-            if not bs:
-                return None
-            o = f.origin(bs[0])
-            if o[0] == "call" and o[1].endswith("Option::<T>::is_some") and origin_has_call(o, r"Iterator>?::find"):
-                asg["te%d" % bb] = te
-                return ("te%d" % bb, {True: bs[1], False: bs[2]})
-            try:
-                v = predeval.ev(f, o, env)
-            except predeval.Unknown as e:
-                return None
-            asg["g%d" % bb] = bool(v)
-            return ("g%d" % bb, {True: bs[1], False: bs[2]})
-        paths = shared.walk_paths(f, start, atom_of, asg, set(f.returns()))
         rows += 1
-        ctx.paths += len(paths)
-        release = (not up) and (not te) and (cl is None or cl == 0 or (cl <= 1024 and not ex))
-        n_ok_paths = 0
-        for end, visited in paths:
-            if end is None or rc not in visited:
-                continue      # loop cuts / error returns
-            n_ok_paths += 1
-            dropped = moved = False
-            for bb in visited:
-                t = f.term(bb)
-                if t["t"] == "drop" and not t["pl"]["p"] and t["pl"]["l"] == RP:
-                    dropped = True
-                for s_ in f.stmts(bb):
-                    if s_["s"] == "assign":
-                        for p_, kind in rvalue_places(s_["rhs"]):
-                            if kind == "move" and not p_["p"] and p_["l"] == RP:
-                                moved = True
-                if t["t"] == "call":
-                    for a in t["args"]:
-                        if a["k"] == "move" and op_local(a) == RP:
-                            moved = True
-            got = dropped and not moved
-            if got != release:
-                bad.append(((up, te, cl, ex), "released" if got else "kept", "released" if release else "kept"))
-        if n_ok_paths == 0:
-            bad.append(((up, te, cl, ex), "no successful path", ""))
+        comp = [r for r in FM.rows if r["end"] == "return" and FM.compatible(r, A) and not (r["kind"] == "err" and r["reads"] > 0)]
+        if not comp:
+            bad.append((A, "no path"))
+        for r in comp:
+            if r["kind"] != "ok":
+                bad.append((A, "not delivered"))
+            elif not r["released"]:
+                bad.append((A, "reader kept (%s)" % r["reader"]))
     ctx.counts["C11.2 rows"] = rows
-    ctx.ob("C11.2", "%s|reader-released-at-parse-time" % f.id,
-           "the request gives its share of the socket reader back during parsing exactly when its body is absent, empty or pre-read (0 < Content-Length <= 1024 without Expect); otherwise it keeps it",
-           not bad, f.loc(start), None if not bad else str(bad[:4]))
+    ctx.ob("C11.2", "%s|reader-released-at-parse-time" % nr.id,
+           "the request gives its share of the socket reader back during parsing when its body is absent, empty or small (0 < Content-Length <= 1024 without Expect): the next request can be read without waiting for this one",
+           not bad and rows > 0, "%s:%d" % (nr.file, nr.line), None if not bad else str(bad[:4]))
 
     return c11_rest(ctx, facts, nr, memo)
 
